@@ -171,12 +171,20 @@ def c12(res: CheckResult) -> None:
     ic = C.load_icontract()
     rng = random.Random(res.seed)
     res.assumptions = COMMON_ASSUMPTIONS + [
-        "interleavings are exhaustive at the granularity of library/user crossings (a turn is silent* ; event)"]
+        "interleavings are exhaustive at the granularity of library/user crossings (a turn is silent* ; event); "
+        "preemption at arbitrary lines inside library code is sampled (seeded), not exhaustive"]
     nsim = 12 if res.tier == "quick" else 120
     conc_unit(res, "thread-like tasks: 2-3 concurrent calls x context modes x all interleavings",
               list(F.fam_conc(res.tier, rng, False)), ic, "thread", nsim)
     conc_unit(res, "asyncio-like tasks: 2-3 concurrent async calls x context modes x all suspension interleavings",
               list(F.fam_conc(res.tier, rng, True)), ic, "async", nsim)
+    # code -> specification under schedules finer than the specification's turn: threads preempted at random lines
+    # INSIDE the library (sys.settrace), every recorded trace validated by ICCallTrace
+    import copy
+    reps = 4 if res.tier == "quick" else 40
+    random_unit(res, "threads preempted at line granularity inside library code (random schedules), traces validated",
+                [copy.deepcopy(p) for p in F.fam_conc(res.tier, rng, False) for _ in range(reps)], ic,
+                mode="thread-preempt", rng=rng)
 
 
 @check("C13")
